@@ -742,7 +742,7 @@ func GenConsumer(g *pk.Gen) {
 // ---------------------------------------------------------------- transport level (fn 11)
 // A complete packetised response (bytes on the wire) is cut at byte offset k; the first k bytes are handed to
 // the reader goroutine in the given segments (one per Read), then the transport fails for good.
-// input  (#stream (segment-length ...) k endkind)     endkind 0 = EOF, 1 = connection error
+// input  (#stream (segment-length ...) k endkind)     endkind 0 = EOF, 1 = connection error (reset), 2 = i/o timeout error
 // output ((delivered package ...) channelErrors connFailed)
 type scriptConn struct {
 	mu   sync.Mutex
@@ -757,8 +757,11 @@ func (c *scriptConn) Read(p []byte) (int, error) {
 	c.mu.Lock()
 	defer c.mu.Unlock()
 	if len(c.segs) == 0 {
-		if c.end == 0 {
+		switch c.end {
+		case 0:
 			return 0, io.EOF
+		case 2:
+			return 0, timeoutErr{}
 		}
 		return 0, errors.New("connection reset by peer")
 	}
@@ -771,6 +774,13 @@ func (c *scriptConn) Read(p []byte) (int, error) {
 	return n, nil
 }
 func (c *scriptConn) Write(p []byte) (int, error) { return len(p), nil }
+
+// timeoutErr: an i/o timeout as net.Conn reports it (net.Error with Timeout() == true)
+type timeoutErr struct{}
+
+func (timeoutErr) Error() string   { return "read tcp: i/o timeout" }
+func (timeoutErr) Timeout() bool   { return true }
+func (timeoutErr) Temporary() bool { return true }
 func (c *scriptConn) Close() error                { return nil }
 
 // WireBytes serialises packets as a server would.
@@ -959,7 +969,7 @@ func GenTransport(g *pk.Gen) {
 			step = 3
 		}
 		for k := 0; k <= len(wire); k += step {
-			emit(k, []int{k}, k%2, "cut-offset")
+			emit(k, []int{k}, (k/step)%3, "cut-offset")
 		}
 		emit(len(wire), []int{len(wire)}, 0, "complete")
 		// peer close inside a packet body with a live read timeout (1 s): the reader keeps reading until the timeout
@@ -996,7 +1006,7 @@ func GenTransport(g *pk.Gen) {
 				rem -= n
 			}
 			emit(len(wire), sl, g.Rng.Intn(2), "reads-random")
-			emit(g.Rng.Range(0, len(wire)), sl, g.Rng.Intn(2), "reads-random-cut")
+			emit(g.Rng.Range(0, len(wire)), sl, g.Rng.Intn(3), "reads-random-cut")
 		}
 		off := 0
 		for _, p := range pkts {
